@@ -5,7 +5,10 @@ Helper lemmas for C16 (Boudot range proof) and C19 (responses mask their secrets
   of `hashInts` (`sha256_length`, `hashInts_lt`), proved from the definitions;
 * floor-division facts behind C19 (`mask_floor`, `mask_margin`, `Masked`), list helpers
   (`drawBitsList_ok`, `responses_ok`, `drawR5_ok`, `s5_mapM_ok`);
-* the tolerance arithmetic of Boudot's proof (`tolerance_lt`, `scaled_in_range_iff`);
+* the tolerance arithmetic of Boudot's proof: the decomposition points `2^T·a`, `2^T·b` and the
+  remainder bound `tolB2 T a b = 2·⌊√(2^T·(b−a))⌋` (`scaled_le_iff`, `isqrt_mono`,
+  `honest_remainder_le`); `tolTheta`, `tolerance_lt`, `scaled_in_range_iff` are arithmetic facts
+  about the parameters used before the F13 repair, kept as auxiliary lemmas;
 * `Rep n y u`: the integer `y` represents the unit `u` of `ℤ/n`; `powMod`/`pw`/`tmod`/`divm` on
   representatives (`powMod_rep`, `pw_rep`, `pw_inv`, `tmod_rep`, `divm_rep`, `Rep.unique`);
   identities in the commutative group `(ℤ/n)ˣ` are proved by `module` in `Additive (ℤ/n)ˣ`;
@@ -346,6 +349,55 @@ theorem scaled_in_range_iff {T : Nat} {θ a b x : Int} (h0 : 0 ≤ θ) (hlt : θ
   · have := mul_le_mul_of_nonneg_left h hp.le
     linarith
 
+/-- the bound of the remainders, `b₂ = 2·⌊√(2^T·(b−a))⌋` (third component of `tolBounds`) -/
+def tolB2 (T : Nat) (a b : Int) : Int := 2 * Int.ofNat (isqrt (2 ^ T * (b - a)).toNat)
+
+theorem tolB2_nonneg (T : Nat) (a b : Int) : 0 ≤ tolB2 T a b := by
+  unfold tolB2
+  exact mul_nonneg (by norm_num) (Int.natCast_nonneg _)
+
+/-- The decomposition points are `2^T·a`, `2^T·b`: `2^T·x` lies between them exactly when
+`x ∈ [a, b]`. -/
+theorem scaled_le_iff {T : Nat} {a x : Int} : 2 ^ T * a ≤ 2 ^ T * x ↔ a ≤ x :=
+  mul_le_mul_iff_right₀ (by positivity : (0 : Int) < 2 ^ T)
+
+theorem isqrt_mono (hA : ArithOK) {m n : Nat} (h : m ≤ n) : isqrt m ≤ isqrt n := by
+  by_contra hc
+  have h1 : isqrt n + 1 ≤ isqrt m := by omega
+  have h2 := (hA.isqrt_spec m).1
+  have h3 := (hA.isqrt_spec n).2
+  have h4 : (isqrt n + 1) ^ 2 ≤ isqrt m ^ 2 := Nat.pow_le_pow_left h1 2
+  omega
+
+/-- `n − ⌊√n⌋² ≤ 2·⌊√n⌋`. -/
+theorem sub_isqrt_sq_le (hA : ArithOK) (n : Nat) : n - isqrt n ^ 2 ≤ 2 * isqrt n := by
+  have h3 := (hA.isqrt_spec n).2
+  have : (isqrt n + 1) ^ 2 = isqrt n ^ 2 + 2 * isqrt n + 1 := by ring
+  omega
+
+/-- **Every honest remainder is within the bound `b₂`**: for `0 ≤ xa ≤ 2^T·(b−a)` (which is
+`2^T·x − 2^T·a` resp. `2^T·b − 2^T·x` for `x ∈ [a, b]`), `0 ≤ xa − ⌊√xa⌋² ≤ 2·⌊√(2^T·(b−a))⌋`. -/
+theorem honest_remainder_le (hA : ArithOK) {T : Nat} {a b xa : Int} (h0 : 0 ≤ xa)
+    (hle : xa ≤ 2 ^ T * (b - a)) :
+    0 ≤ xa - (Int.ofNat (isqrt xa.toNat)) ^ 2 ∧
+      xa - (Int.ofNat (isqrt xa.toNat)) ^ 2 ≤ tolB2 T a b := by
+  unfold tolB2
+  have hm : xa.toNat ≤ (2 ^ T * (b - a)).toNat := Int.toNat_le_toNat hle
+  have h1 := isqrt_mono hA hm
+  have h2 := sub_isqrt_sq_le hA xa.toNat
+  have h3 := (hA.isqrt_spec xa.toNat).1
+  have hx : ((xa.toNat : Nat) : Int) = xa := Int.toNat_of_nonneg h0
+  show 0 ≤ xa - ((isqrt xa.toNat : Nat) : Int) ^ 2 ∧
+    xa - ((isqrt xa.toNat : Nat) : Int) ^ 2 ≤ 2 * ((isqrt (2 ^ T * (b - a)).toNat : Nat) : Int)
+  have h3' : ((isqrt xa.toNat : Nat) : Int) ^ 2 ≤ ((xa.toNat : Nat) : Int) := by exact_mod_cast h3
+  have h2' : ((xa.toNat : Nat) : Int)
+      ≤ ((isqrt xa.toNat : Nat) : Int) ^ 2 + 2 * ((isqrt xa.toNat : Nat) : Int) := by
+    have : xa.toNat ≤ isqrt xa.toNat ^ 2 + 2 * isqrt xa.toNat := by omega
+    exact_mod_cast this
+  have h1' : ((isqrt xa.toNat : Nat) : Int) ≤ ((isqrt (2 ^ T * (b - a)).toNat : Nat) : Int) := by
+    exact_mod_cast h1
+  constructor <;> linarith
+
 /-! ### representatives of units of `ℤ/n` -/
 
 /-- The integer `y` represents the unit `u` of `ℤ/n`. -/
@@ -570,7 +622,7 @@ theorem large_loop_complete (hA : ArithOK) {n : Int} (hn : 1 < n) {g h E x r : I
     {u v : (ZMod n.toNat)ˣ} (hg : Rep n g u) (hh : Rep n h v) (hE : Rep n E (u ^ x * v ^ r))
     {t l : Nat} {b : Int} {s T : Nat} (fuel : Nat) {tp tp' : List Draw} {π : ProofLi}
     (hp : proofLargeLoop x r g h t l b s n T fuel tp = .ok (π, tp')) (tq : List Draw) :
-    verifyLargeIntervalSpecific π E g h n t l b T tq = .ok (true, tq) := by
+    verifyLargeIntervalSpecific π E g h n t l b tq = .ok (true, tq) := by
   induction fuel generalizing tp with
   | zero => cases hp
   | succ fuel ih =>
@@ -608,7 +660,7 @@ theorem large_interval_complete (hA : ArithOK) {n : Int} (hn : 1 < n) {g h E x r
     {u v : (ZMod n.toNat)ˣ} (hg : Rep n g u) (hh : Rep n h v) (hE : Rep n E (u ^ x * v ^ r))
     {t l : Nat} {b : Int} {s T : Nat} {tp tp' : List Draw} {π : ProofLi}
     (hp : proofLargeIntervalSpecific x r g h t l b s n T tp = .ok (π, tp')) (tq : List Draw) :
-    verifyLargeIntervalSpecific π E g h n t l b T tq = .ok (true, tq) := by
+    verifyLargeIntervalSpecific π E g h n t l b tq = .ok (true, tq) := by
   unfold proofLargeIntervalSpecific at hp
   rename' hp => h
   obtain ⟨k, _, -, h⟩ := bind_ok_inv h
@@ -630,18 +682,22 @@ theorem sqrtM_ok_iff {x y : Int} {t t' : List Draw} :
 theorem sqrtM_neg {x : Int} (hx : x < 0) (t : List Draw) : sqrtM x t = .panic := by
   unfold sqrtM; rw [if_pos hx]; rfl
 
-theorem tolBounds_ok_iff {a b : Int} {t l T : Nat} {p : Int × Int} {tp tp' : List Draw} :
-    tolBounds a b t l T tp = .ok (p, tp') ↔
-      a ≤ b ∧ p = (2 ^ T * a - tolTheta t l T a b, 2 ^ T * b + tolTheta t l T a b) ∧ tp' = tp := by
+theorem tolBounds_ok_iff {a b : Int} {T : Nat} {p : Int × Int × Int} {tp tp' : List Draw} :
+    tolBounds a b T tp = .ok (p, tp') ↔
+      a ≤ b ∧ p = (2 ^ T * a, 2 ^ T * b, tolB2 T a b) ∧ tp' = tp := by
+  have hp : (0 : Int) < 2 ^ T := by positivity
   unfold tolBounds
   rw [bind_ok_iff]
   constructor
   · rintro ⟨sq, t1, h1, h2⟩
     obtain ⟨h0, rfl, rfl⟩ := sqrtM_ok_iff.mp h1
     obtain ⟨rfl, rfl⟩ := pure_ok_iff.mp h2
-    exact ⟨by omega, rfl, rfl⟩
+    refine ⟨?_, rfl, rfl⟩
+    by_contra hc
+    have : 2 ^ T * (b - a) < 0 := mul_neg_of_pos_of_neg hp (by omega)
+    omega
   · rintro ⟨hab, rfl, rfl⟩
-    exact ⟨_, _, sqrtM_ok_iff.mpr ⟨by omega, rfl, rfl⟩, rfl⟩
+    exact ⟨_, _, sqrtM_ok_iff.mpr ⟨mul_nonneg hp.le (by omega), rfl, rfl⟩, rfl⟩
 
 theorem splitLoop_ok {target lo hi : Int} (fuel : Nat) {r1 r2 : Int} {t t' : List Draw}
     (h : splitLoop target lo hi fuel t = .ok ((r1, r2), t')) : r2 = target - r1 := by
@@ -682,11 +738,11 @@ theorem tolerance_complete (hA : ArithOK) {n : Int} (hn : 1 < n) {g h E x r a b 
   unfold proofOfToleranceSpecific at hp
   obtain ⟨p, _, htb, H⟩ := bind_ok_inv hp
   clear hp
-  obtain ⟨aa, bb⟩ := p
+  obtain ⟨aa, bb, b2⟩ := p
   simp only [] at H
   obtain ⟨hab, hp, rfl⟩ := tolBounds_ok_iff.mp htb
   simp only [Prod.mk.injEq] at hp
-  obtain ⟨haa, hbb⟩ := hp
+  obtain ⟨haa, hbb, hb2⟩ := hp
   obtain ⟨xa1, _, -, H⟩ := bind_ok_inv H
   obtain ⟨xb1, _, -, H⟩ := bind_ok_inv H
   obtain ⟨k, _, -, H⟩ := bind_ok_inv H
@@ -705,6 +761,7 @@ theorem tolerance_complete (hA : ArithOK) {n : Int} (hn : 1 < n) {g h E x r a b 
   obtain ⟨e6, _, he6, H⟩ := bind_ok_inv H
   obtain ⟨e7, _, he7, H⟩ := bind_ok_inv H
   obtain ⟨e8, _, he8, H⟩ := bind_ok_inv H
+  obtain ⟨sq1, _, -, H⟩ := bind_ok_inv H
   obtain ⟨sqA, _, hsqA, H⟩ := bind_ok_inv H
   obtain ⟨sqB, _, hsqB, H⟩ := bind_ok_inv H
   obtain ⟨liA, _, hliA, H⟩ := bind_ok_inv H
@@ -730,7 +787,7 @@ theorem tolerance_complete (hA : ArithOK) {n : Int} (hn : 1 < n) {g h E x r a b 
   unfold verifyOfToleranceSpecific
   rw [bind_of_ok (tolBounds_ok_iff.mpr ⟨hab, rfl, rfl⟩)]
   dsimp only
-  rw [← haa, ← hbb]
+  rw [← haa, ← hbb, ← hb2]
   obtain ⟨gaa, hgaa, rgaa, gaa0, -⟩ := pw_rep hA hn hg aa tq
   obtain ⟨Ea, hEa, rEa, Ea0, -⟩ := divm_rep hA hn hE rgaa hE0 tq
   obtain ⟨gbb, hgbb, rgbb, gbb0, -⟩ := pw_rep hA hn hg bb tq
@@ -790,7 +847,7 @@ theorem range_complete (hA : ArithOK) (cs : Suite) {n : Int} (hn : 1 < n) {g h x
 /-! ### the honest prover outside `[a, b]` -/
 
 /-- If the honest prover returns a proof, the value was in `[a, b]` (the square roots of
-`x' − aa` and `bb − x'` are taken of non-negative numbers only). -/
+`2^T·x − 2^T·a` and `2^T·b − 2^T·x` are taken of non-negative numbers only). -/
 theorem prover_in_range (hA : ArithOK) (cs : Suite) {n g h x a b : Int} {c : Commitment}
     {tp tp' : List Draw} {π : RangeProof}
     (hp : rangeProve cs x c g h n a b tp = .ok (π, tp')) : a < b ∧ a ≤ x ∧ x ≤ b := by
@@ -805,20 +862,18 @@ theorem prover_in_range (hA : ArithOK) (cs : Suite) {n g h x a b : Int} {c : Com
   unfold proofOfToleranceSpecific at htol
   obtain ⟨p, _, htb, H⟩ := bind_ok_inv htol
   clear htol
-  obtain ⟨aa, bb⟩ := p
+  obtain ⟨aa, bb, b2⟩ := p
   simp only [] at H
   obtain ⟨hab', hp, rfl⟩ := tolBounds_ok_iff.mp htb
   simp only [Prod.mk.injEq] at hp
-  obtain ⟨haa, hbb⟩ := hp
+  obtain ⟨haa, hbb, -⟩ := hp
   obtain ⟨xa1, _, h1, H⟩ := bind_ok_inv H
   obtain ⟨xb1, _, h2, H⟩ := bind_ok_inv H
   obtain ⟨ha, -, -⟩ := sqrtM_ok_iff.mp h1
   obtain ⟨hb, -, -⟩ := sqrtM_ok_iff.mp h2
-  have hθ := tolerance_lt hA a b cs.t cs.l hab'
-  have h0 := tolTheta_nonneg cs.t cs.l (tolT cs.t cs.l a b) a b
-  rw [rangeT_eq] at haa hbb ha hb
-  obtain ⟨i1, i2⟩ := scaled_in_range_iff (a := a) (b := b) (x := x) h0 hθ
-  exact ⟨by omega, i1.mp (by rw [haa] at ha; linarith), i2.mp (by rw [hbb] at hb; linarith)⟩
+  rw [haa] at ha
+  rw [hbb] at hb
+  exact ⟨by omega, scaled_le_iff.mp (by linarith), scaled_le_iff.mp (by linarith)⟩
 
 /-- For ANY integer outside `[a, b]` the honest prover does not produce a proof … -/
 theorem honest_out_of_range (hA : ArithOK) (cs : Suite) {n g h x a b : Int} {c : Commitment}
@@ -840,25 +895,23 @@ theorem honest_out_of_range_panics (hA : ArithOK) (cs : Suite) {n g h x a b : In
   apply bind_of_panic
   rw [bind_of_ok (tolBounds_ok_iff.mpr ⟨by omega, rfl, rfl⟩)]
   dsimp only
-  have hθ := tolerance_lt hA a b cs.t cs.l (by omega)
-  have h0 := tolTheta_nonneg cs.t cs.l (tolT cs.t cs.l a b) a b
   rw [rangeT_eq]
-  obtain ⟨i1, i2⟩ := scaled_in_range_iff (a := a) (b := b) (x := x) h0 hθ
+  have i1 := scaled_le_iff (T := tolT cs.t cs.l a b) (a := a) (x := x)
+  have i2 := scaled_le_iff (T := tolT cs.t cs.l a b) (a := x) (x := b)
   by_cases hxa : x < a
   · apply bind_of_panic
     apply sqrtM_neg
-    have : ¬ (2 ^ tolT cs.t cs.l a b * a - tolTheta cs.t cs.l (tolT cs.t cs.l a b) a b
-        ≤ 2 ^ tolT cs.t cs.l a b * x) := fun hc => by have := i1.mp hc; omega
+    have : ¬ (2 ^ tolT cs.t cs.l a b * a ≤ 2 ^ tolT cs.t cs.l a b * x) :=
+      fun hc => by have := i1.mp hc; omega
     linarith
   · have hxb : b < x := by omega
-    have h1 : 0 ≤ 2 ^ tolT cs.t cs.l a b * x -
-        (2 ^ tolT cs.t cs.l a b * a - tolTheta cs.t cs.l (tolT cs.t cs.l a b) a b) := by
+    have h1 : 0 ≤ 2 ^ tolT cs.t cs.l a b * x - 2 ^ tolT cs.t cs.l a b * a := by
       have := i1.mpr (by omega); linarith
     rw [bind_of_ok (sqrtM_ok_iff.mpr ⟨h1, rfl, rfl⟩)]
     apply bind_of_panic
     apply sqrtM_neg
-    have : ¬ (2 ^ tolT cs.t cs.l a b * x ≤ 2 ^ tolT cs.t cs.l a b * b +
-        tolTheta cs.t cs.l (tolT cs.t cs.l a b) a b) := fun hc => by have := i2.mp hc; omega
+    have : ¬ (2 ^ tolT cs.t cs.l a b * x ≤ 2 ^ tolT cs.t cs.l a b * b) :=
+      fun hc => by have := i2.mp hc; omega
     linarith
 
 /-! ### reading the verifier backwards -/
@@ -936,7 +989,7 @@ theorem divm_spec (hA : ArithOK) {a b m y : Int} (hm : 1 < m) {t t' : List Draw}
 theorem sqrtM_tapeFree (x : Int) : TapeFree (sqrtM x) := by
   unfold sqrtM; exact .ite .panic (.pure _)
 
-theorem tolBounds_tapeFree (a b : Int) (t l T : Nat) : TapeFree (tolBounds a b t l T) := by
+theorem tolBounds_tapeFree (a b : Int) (T : Nat) : TapeFree (tolBounds a b T) := by
   unfold tolBounds; exact .bind (sqrtM_tapeFree _) fun _ => .pure _
 
 theorem verifySameSecret_tapeFree (E F g1 h1 g2 h2 n : Int) (π : ProofSs) :
@@ -948,8 +1001,8 @@ theorem verifySameSecret_tapeFree (E F g1 h1 g2 h2 n : Int) (π : ProofSs) :
 theorem verifyOfSquare_tapeFree (π : ProofOfS) (g h n : Int) : TapeFree (verifyOfSquare π g h n) :=
   verifySameSecret_tapeFree _ _ _ _ _ _ _ _
 
-theorem verifyLarge_tapeFree (π : ProofLi) (E g h n : Int) (t l : Nat) (b : Int) (T : Nat) :
-    TapeFree (verifyLargeIntervalSpecific π E g h n t l b T) := by
+theorem verifyLarge_tapeFree (π : ProofLi) (E g h n : Int) (t l : Nat) (b : Int) :
+    TapeFree (verifyLargeIntervalSpecific π E g h n t l b) := by
   unfold verifyLargeIntervalSpecific
   exact .bind (.pw _ _ _) fun _ => .bind (.pw _ _ _) fun _ => .bind (.pw _ _ _) fun _ => .pure _
 
@@ -957,24 +1010,24 @@ theorem verifyLarge_tapeFree (π : ProofLi) (E g h n : Int) (t l : Nat) (b : Int
 theorem tolerance_accept_inv {π : ProofWt} {g h E n a b : Int} {t l T : Nat} {tq tq' : List Draw}
     (hv : verifyOfToleranceSpecific π g h E n a b t l T tq = .ok (true, tq')) :
     a ≤ b ∧ tq' = tq ∧ ∃ gaa Ea gbb Eb : Int,
-      pw g (2 ^ T * a - tolTheta t l T a b) n tq = .ok (gaa, tq) ∧
+      pw g (2 ^ T * a) n tq = .ok (gaa, tq) ∧
       divm E gaa n tq = .ok (Ea, tq) ∧
-      pw g (2 ^ T * b + tolTheta t l T a b) n tq = .ok (gbb, tq) ∧
+      pw g (2 ^ T * b) n tq = .ok (gbb, tq) ∧
       divm gbb E n tq = .ok (Eb, tq) ∧
       divm Ea π.Ea1 n tq = .ok (π.Ea2, tq) ∧ divm Eb π.Eb1 n tq = .ok (π.Eb2, tq) ∧
       π.squareA.E = π.Ea1 ∧ π.squareB.E = π.Eb1 ∧
       verifyOfSquare π.squareA g h n tq = .ok (true, tq) ∧
       verifyOfSquare π.squareB g h n tq = .ok (true, tq) ∧
-      verifyLargeIntervalSpecific π.largeA π.Ea2 g h n t l b T tq = .ok (true, tq) ∧
-      verifyLargeIntervalSpecific π.largeB π.Eb2 g h n t l b T tq = .ok (true, tq) := by
+      verifyLargeIntervalSpecific π.largeA π.Ea2 g h n t l (tolB2 T a b) tq = .ok (true, tq) ∧
+      verifyLargeIntervalSpecific π.largeB π.Eb2 g h n t l (tolB2 T a b) tq = .ok (true, tq) := by
   unfold verifyOfToleranceSpecific at hv
   obtain ⟨p, t0, htb, H0⟩ := bind_ok_inv hv
   clear hv
-  obtain ⟨aa, bb⟩ := p
+  obtain ⟨aa, bb, b2⟩ := p
   simp only [] at H0
   obtain ⟨hab, hp, rfl⟩ := tolBounds_ok_iff.mp htb
   simp only [Prod.mk.injEq] at hp
-  obtain ⟨rfl, rfl⟩ := hp
+  obtain ⟨rfl, rfl, rfl⟩ := hp
   obtain ⟨gaa, t1, h1, H1⟩ := bind_ok_inv H0
   obtain rfl := (TapeFree.pw _ _ _).tape_eq h1
   obtain ⟨Ea, t2, h2, H2⟩ := bind_ok_inv H1
@@ -1006,12 +1059,12 @@ theorem tolerance_accept_inv {π : ProofWt} {g h E n a b : Int} {t l T : Nat} {t
     | true =>
       simp only [if_true] at h8
       obtain rfl := (verifyOfSquare_tapeFree _ _ _ _).tape_eq h8
-      obtain rfl := (verifyLarge_tapeFree _ _ _ _ _ _ _ _ _).tape_eq h9
+      obtain rfl := (verifyLarge_tapeFree _ _ _ _ _ _ _ _).tape_eq h9
       cases l1 with
       | false => simp only [Bool.false_eq_true, if_false] at h10; cases (pure_ok_iff.mp h10).1
       | true =>
         simp only [if_true] at h10
-        obtain rfl := (verifyLarge_tapeFree _ _ _ _ _ _ _ _ _).tape_eq h10
+        obtain rfl := (verifyLarge_tapeFree _ _ _ _ _ _ _ _).tape_eq h10
         subst c1 c2
         exact ⟨hab, rfl, gaa, Ea, gbb, Eb, h1, h2, h3, h4, h5, h6, c3, c4, h7, h8, h9, h10⟩
   · cases (pure_ok_iff.mp H6).1
@@ -1023,15 +1076,15 @@ theorem two_pow_toNat (T : Nat) : ((2 : Int) ^ T).toNat = 2 ^ T := by
 theorem verifyOfTolerance_tapeFree (π : ProofWt) (g h E n a b : Int) (t l T : Nat) :
     TapeFree (verifyOfToleranceSpecific π g h E n a b t l T) := by
   unfold verifyOfToleranceSpecific
-  refine .bind (tolBounds_tapeFree _ _ _ _ _) fun p => ?_
-  obtain ⟨aa, bb⟩ := p
+  refine .bind (tolBounds_tapeFree _ _ _) fun p => ?_
+  obtain ⟨aa, bb, b2⟩ := p
   exact .bind (.pw _ _ _) fun _ => .bind (divm_tapeFree _ _ _) fun _ => .bind (.pw _ _ _) fun _ =>
     .bind (divm_tapeFree _ _ _) fun _ => .bind (divm_tapeFree _ _ _) fun _ =>
     .bind (divm_tapeFree _ _ _) fun _ => .ite
       (.bind (verifyOfSquare_tapeFree _ _ _ _) fun _ =>
         .bind (.ite (verifyOfSquare_tapeFree _ _ _ _) (.pure _)) fun _ =>
-        .bind (verifyLarge_tapeFree _ _ _ _ _ _ _ _ _) fun _ =>
-        .bind (.ite (verifyLarge_tapeFree _ _ _ _ _ _ _ _ _) (.pure _)) fun _ => .pure _)
+        .bind (verifyLarge_tapeFree _ _ _ _ _ _ _ _) fun _ =>
+        .bind (.ite (verifyLarge_tapeFree _ _ _ _ _ _ _ _) (.pure _)) fun _ => .pure _)
       (.pure _)
 
 theorem rangeVerify_tapeFree (cs : Suite) (π : RangeProof) (g h n a b : Int) :
@@ -1232,12 +1285,9 @@ theorem rangeProve_ne_panic (hA : ArithOK) (cs : Suite) {n : Int} (hn : 1 < n) {
   unfold proofOfToleranceSpecific
   rw [bind_of_ok (tolBounds_ok_iff.mpr ⟨by omega, rfl, rfl⟩)]
   dsimp only
-  have hθ := tolerance_lt hA a b cs.t cs.l (by omega)
-  have h0 := tolTheta_nonneg cs.t cs.l (tolT cs.t cs.l a b) a b
   rw [rangeT_eq]
-  obtain ⟨i1, i2⟩ := scaled_in_range_iff (a := a) (b := b) (x := x) h0 hθ
-  have h1 := i1.mpr hax
-  have h2 := i2.mpr hxb
+  have h1 := (scaled_le_iff (T := tolT cs.t cs.l a b)).mpr hax
+  have h2 := (scaled_le_iff (T := tolT cs.t cs.l a b)).mpr hxb
   rw [bind_of_ok (sqrtM_ok_iff.mpr ⟨by linarith, rfl, rfl⟩)]
   rw [bind_of_ok (sqrtM_ok_iff.mpr ⟨by linarith, rfl, rfl⟩)]
   refine bind_ne_panic (remaining_ne_panic _) fun k _ _ => ?_
@@ -1251,6 +1301,8 @@ theorem rangeProve_ne_panic (hA : ArithOK) (cs : Suite) {n : Int} (hn : 1 < n) {
   refine bind_ne_panic (pw_ne_panic hA hn hh _ _) fun _ _ _ => ?_
   refine bind_ne_panic (pw_ne_panic hA hn hg _ _) fun _ _ _ => ?_
   refine bind_ne_panic (pw_ne_panic hA hn hh _ _) fun _ _ _ => ?_
+  refine bind_ne_panic (by
+    rw [sqrtM_ok_iff.mpr ⟨mul_nonneg (by positivity) (by omega), rfl, rfl⟩]; simp) fun _ _ _ => ?_
   refine bind_ne_panic (proofOfSquare_ne_panic hA hn hg hh _ _ _ _ _ _ _ _ _ _) fun _ _ _ => ?_
   refine bind_ne_panic (proofOfSquare_ne_panic hA hn hg hh _ _ _ _ _ _ _ _ _ _) fun _ _ _ => ?_
   refine bind_ne_panic ?_ fun _ _ _ => ?_
